@@ -63,6 +63,9 @@ def run(F, rep):
     rep.floor("C17-R9", n9, 2, "sample-name derivation clauses shared with C19")
     # R10: in a PanSN file the sample list is made of the header prefixes sample#haplotype (C19-G8's evaluation, shared)
     c19.g8_rule(F, rep, "C17-R10")
+    # R11: a read error on an input is a failure of create - "create exiting 0 implies the archive lists every input sample"
+    from rules import c16
+    c16.read_fate_rule(F, rep, "C17-R11")
 
     # ------------------------------------------------------------ R8: buffered output is flushed before success is reported
     # A BufWriter / LineWriter dropped with data still in its buffer writes it in Drop and throws the error away, so
